@@ -271,7 +271,8 @@ theorem checkMotion_lastValid_iff (A : Arith D) (Am : Ambient S D) (isSat isVali
     simp only
     by_cases he : (endStateOk isSat isValid (geo s s1 s2 false).1 (geo s s1 s2 false).2.2 s2).1 = true
     · have := (endStateOk_iff isSat isValid _ _ s2).mp he
-      simp [he, this]
+      rw [if_neg (by simp [he])]
+      simp [this]
     · have hf' : (endStateOk isSat isValid (geo s s1 s2 false).1 (geo s s1 s2 false).2.2 s2).1 = false := by
         simpa using he
       have hn := (endStateOk_iff isSat isValid (geo s s1 s2 false).1 (geo s s1 s2 false).2.2 s2).not.mp he
